@@ -158,7 +158,7 @@ func strClass(c string) string {
 func prefixOf(c string) string {
 	return map[string]string{"none": "", "duplicate": mocrelay.MachineReadablePrefixDuplicate, "blocked": mocrelay.MachineReadablePrefixBlocked,
 		"error": mocrelay.MachineReadablePrefixError, "invalid": mocrelay.MachineReadablePrefixInvalid, "pow": mocrelay.MachineReadablePrefixPoW,
-		"ratelimited": mocrelay.MachineReadablePrefixRateLimited, "lookalike": ""}[c]
+		"ratelimited": mocrelay.MachineReadablePrefixRateLimited, "lookalike": "", "doubled": mocrelay.MachineReadablePrefixError}[c]
 }
 
 // serverValue builds the well-formed value of a server case.
@@ -167,6 +167,9 @@ func serverValue(c srvCase, ev *mocrelay.Event) (v any, fresh func() any) {
 	msg := s
 	if c.Prefix == "lookalike" {
 		msg = "duplicate:" + s // no space: not a machine-readable prefix
+	}
+	if c.Prefix == "doubled" {
+		msg = "error: " + s // the free text itself starts with the prefix
 	}
 	switch c.Type {
 	case "OK":
